@@ -1,4 +1,5 @@
 import TwistedModel.Spread.Jelly
+import TwistedModel.Spread.JellyHeap
 /-!
 Driver glue for C45.
 
@@ -11,6 +12,12 @@ sexp:     `,`-joined tokens      `(` `)` `b:<hex>` `s:<hex utf-8>` `i:<int>` `f:
 outcome:  `ok` or `!raised <Class>`
 events:   `;`-joined `i+:<name>` `i-:<name>` `r:<name>` `n:<clsid>`, `-` if none
 res:      sorted distinct descriptors of the result and of every bound reference, `-` if raised
+
+  `C45 rt <fuel> <root> <nodes>`                → `<jelly sexp tokens> => <root> <nodes>` | `<jelly sexp tokens> => !raised <Class>` | `!raised <Class>`
+      (heap model `TwistedModel/Spread/JellyHeap.lean`: `_Jellier.jelly` of the graph, then `_Unjellier.unjelly` of that)
+ref:      `p<addr>` | `a<atom token with ':' written '='>` | `l<hex tag>` followed by `/<atom token>`…
+nodes:    `-` or `;`-joined `<shape>:<ref>,<ref>…` (address = position); shape `L` `T` `S` `F` `D` `I.<clsid>`;
+          in the output also `N` (a `NotKnown` placeholder left in the heap)
 -/
 namespace Twisted.Drv.C45
 open Twisted.Spread.Jelly
@@ -245,12 +252,106 @@ def showOut (r : Except Err Val × St) : String :=
   | .ok v => s!"ok ev={evs} res={showRes v r.2} q={q}"
   | .error e => s!"!raised {showErr e} ev={evs} res=- q={q}"
 
+
+/-! ### the heap round trip (`rt`) -/
+
+namespace RT
+open Twisted.Spread.JellyHeap
+
+def rtClasses : List ObjId := ["c45safe.A", "c45safe.B", "c45safe.S"]
+
+def env : Twisted.Spread.JellyHeap.Env where
+  qual c := Twisted.Spread.Jelly.utf8 (world.qual c)
+  classAllowed c := rtClasses.contains c
+  resolve t := rtClasses.find? fun c => Twisted.Spread.Jelly.utf8 (world.qual c) == t
+  hasSetstate c := world.hasSetstate c
+
+def decAtomEq (t : String) : Option Atom := decAtom (t.replace "=" ":")
+
+def decRef (t : String) : Option Ref :=
+  match t.toList with
+  | 'p' :: r => (String.ofList r).toNat?.map Ref.ptr
+  | 'a' :: r => (decAtomEq (String.ofList r)).map fun a => Ref.imm (.atom a)
+  | 'l' :: r =>
+    match (String.ofList r).splitOn "/" with
+    | tag :: args => do
+      let tag ← decHex tag
+      let args ← args.mapM decAtomEq
+      pure (Ref.imm (.leaf tag args))
+    | [] => none
+  | _ => none
+
+def decShape (t : String) : Option Shape :=
+  if t = "L" then some .list else if t = "T" then some .tuple else if t = "S" then some .set
+  else if t = "F" then some .frozenset else if t = "D" then some .dict
+  else match t.toList with
+    | 'I' :: '.' :: c => some (.inst (String.ofList c))
+    | _ => none
+
+def decNode (t : String) : Option Obj :=
+  match t.splitOn ":" with
+  | [sh, ks] => do
+    let sh ← decShape sh
+    let ks ← if ks = "" then some [] else (ks.splitOn ",").mapM decRef
+    pure ⟨sh, ks⟩
+  | _ => none
+
+def decHeap (t : String) : Option Heap :=
+  if t = "-" then some [] else (t.splitOn ";").mapM decNode
+
+def hexDigit (n : Nat) : Char := if n < 10 then Char.ofNat (48 + n) else Char.ofNat (87 + n)
+def hexOf (b : Bytes) : String := String.ofList (b.flatMap fun c => [hexDigit (c.toNat / 16), hexDigit (c.toNat % 16)])
+
+def showAtom (sep : String) : Atom → String
+  | .bytes b => "b" ++ sep ++ hexOf b
+  | .str s => "s" ++ sep ++ hexOf (Twisted.Spread.Jelly.utf8 s)
+  | .int i => "i" ++ sep ++ toString i
+  | .float f => "f" ++ sep ++ f
+
+mutual
+def sexpToks : Sexp → List String
+  | .atom a => [showAtom ":" a]
+  | .list xs => "(" :: (sexpToksL xs ++ [")"])
+def sexpToksL : List Sexp → List String
+  | [] => []
+  | x :: xs => sexpToks x ++ sexpToksL xs
+end
+
+def showRef : Ref → String
+  | .ptr a => "p" ++ toString a
+  | .imm (.atom a) => "a" ++ showAtom "=" a
+  | .imm (.leaf t args) => "/".intercalate (("l" ++ hexOf t) :: args.map (showAtom "="))
+
+def showShape : Shape → String
+  | .list => "L" | .tuple => "T" | .set => "S" | .frozenset => "F" | .dict => "D"
+  | .inst c => "I." ++ c
+
+def showDObj : DObj → String
+  | .obj sh ks => showShape sh ++ ":" ++ ",".intercalate (ks.map showRef)
+  | _ => "N:"
+
+def run (fuel : Nat) (root : Ref) (h : Heap) : String :=
+  match Twisted.Spread.JellyHeap.jellyFull env h fuel root with
+  | .error e => "!raised " ++ showErr e
+  | .ok sx =>
+    let js := ",".intercalate (sexpToks sx)
+    match Twisted.Spread.JellyHeap.unjelly env sx with
+    | .error e => js ++ " => !raised " ++ showErr e
+    | .ok (r, s) =>
+      js ++ " => " ++ showRef r ++ " " ++ (if s.heap.isEmpty then "-" else ";".intercalate (s.heap.map showDObj))
+
+end RT
+
 def handle (args : List String) : String :=
   match args with
   | ["world"] => dumpWorld
   | ["unjelly", p, r, s] =>
     match decPolicy p, decRegistry r, decSexp s with
     | some p, some r, some s => showOut (unjellyFull ⟨world, p, r⟩ s)
+    | _, _, _ => "bad-op"
+  | ["rt", fuel, root, nodes] =>
+    match fuel.toNat?, RT.decRef root, RT.decHeap nodes with
+    | some f, some r, some h => RT.run f r h
     | _, _, _ => "bad-op"
   | _ => "bad-op"
 
